@@ -720,6 +720,37 @@ def run(ctx):
                     bad = bad or ('char %d..%d at position %d' % (lo, hi, pos), r)
         ctx.check(bad is None, R8, 'valid_sid:position-%d:exact-alphabet' % pos, ('%s -> %r' % bad) if bad else '', vs.where, detail={'boxes': nb})
     ctx.assume('valid_sid decides each position independently (single loop whose body tests only the current character); R8 varies one position at a time with the others fixed to "0" and to "f"')
+    # ---------------- R13 network storage addressing; typed accessors are locale independent
+    R13 = ctx.rule('C06.R13', 'network session storage: save, load and remove pick the session server by the session id alone (the same id always reaches the same server) and send the id first; '
+                              'the typed accessors set<T> / get<T> (used by the library for _t, _h, _s) format and parse in the classic locale, imbued before the value passes through the stream')
+    PT = model.Program(build.extract([REPO + '/src/session_tcp_storage.cpp'], include_re='^/repo/(src|private|cppcms)/'))
+    ctx.units.append('src/session_tcp_storage.cpp')
+    TS = 'cppcms::sessions::tcp_storage::'
+    for nm_ in ('save', 'load', 'remove'):
+        f = PT.fn(TS + nm_)
+        sidp = q.param_by_index(f, 0)
+        pick = [i for i in f.calls() if f.bcallee(i) == 'cppcms::impl::tcp_connector::get']
+        tx = [i for i in f.calls() if q.short_of(f.callee(i) or '') == 'transmit']
+        ok = len(pick) == 1 and len(tx) == 1 and f.ref_of(f.args(pick[0])[0]) == sidp and f.contains(tx[0], pick[0]) and q.always_before_exit(f, tx)
+        why = 'the session server is not chosen by the session id alone'
+        if ok:
+            dv = f.ref_of(f.args(tx[0])[1])
+            first = [val for (dn, val) in f.defs_of_var(dv) if val is not None and f.N(f.strip(val))['k'] != 'CXXConstructExpr' or (val is not None and f.subtree_refs(val))] if dv else []
+            apps = sorted([i for i in f.calls() if q.short_of(f.callee(i) or '') in ('operator+=', 'append', 'operator=', 'assign') and f.ref_of(f.N(i)['ch'][1] if f.N(i)['k'] == 'CXXOperatorCallExpr' else f.obj(i)) == dv],
+                          key=lambda i: (f.N(i)['l'], f.N(i)['c']))
+            srcs = [r_ for v_ in first for r_ in f.subtree_refs(v_) if r_.startswith('p:')] + [r_ for i in apps for r_ in f.subtree_refs(f.args(i)[-1]) if r_.startswith('p:')]
+            ok = bool(dv) and srcs[:1] == [sidp] and (nm_ != 'save' or srcs == [sidp, q.param_by_index(f, 2)])
+            why = 'the transmitted text is not the session id%s' % (' followed by the data' if nm_ == 'save' else '')
+        ctx.check(ok, R13, 'tcp_storage::%s:server-chosen-by-id:id-sent-first' % nm_, why, f.where)
+    accs = sorted([f for f in P.fns.values() if f.bname in ('cppcms::session_interface::set', 'cppcms::session_interface::get') and f.body is not None and '<' in f.id.split('(')[0]], key=lambda g: g.id)
+    ctx.require(len(accs) >= 2 or ctx.violations, 'C06.R13: no session_interface::set<T> / get<T> instantiation in session_interface.cpp')
+    for f in accs:
+        streams = [d['ref'] for i in f.all_nodes() if f.N(i)['k'] == 'DeclStmt' for d in f.N(i)['decls'] if 'stringstream' in (f.types[d['t']] or '')]
+        imb = [i for i in f.calls() if q.short_of(f.callee(i) or '') == 'imbue' and f.obj(i) is not None and f.ref_of(f.obj(i)) in streams and any(q.short_of(f.callee(j) or '') == 'classic' for j in f.calls(i))]
+        io = [i for i in f.calls() if f.N(i)['k'] in ('CXXOperatorCallExpr', 'CXXMemberCallExpr') and (f.callee(i) or '').endswith(('operator<<', 'operator>>')) and any(s_ in f.subtree_refs(i) for s_ in streams)]
+        ok = len(streams) == 1 and len(imb) == 1 and bool(io) and all(q.before(f, imb[0], i) for i in io)
+        ctx.check(ok, R13, '%s:classic-locale-before-the-value' % f.id.split('(')[0].replace('cppcms::session_interface::', ''), 'the conversion does not imbue std::locale::classic() on its stream before the value passes through: writer and reader disagree under a global locale with digit grouping', f.where)
+    ctx.floor(R13, 5)
     ctx.floor(R1, 10)
     ctx.floor(R2, 10)
     ctx.floor(R3, 5)
